@@ -24,6 +24,11 @@ func (e *Engine) namedVar(name string, w uint8) *Term {
 func (e *Engine) setupVerifIntrinsics() {
 	in := e.intr
 	p := verifPkg + "."
+	in[p+"And"] = func(e *Engine, fr *frame, a []Value) Value { return e.ts.BAnd(a[0].(*Term), a[1].(*Term)) }
+	in[p+"Or"] = func(e *Engine, fr *frame, a []Value) Value { return e.ts.BOr(a[0].(*Term), a[1].(*Term)) }
+	in[p+"Implies"] = func(e *Engine, fr *frame, a []Value) Value {
+		return e.ts.BOr(e.ts.BNot(a[0].(*Term)), a[1].(*Term))
+	}
 	in[p+"Symbolic"] = func(e *Engine, fr *frame, a []Value) Value { return e.ts.tru }
 	in[p+"Byte"] = func(e *Engine, fr *frame, a []Value) Value { return e.namedVar(e.strArg(a[0]), 8) }
 	in[p+"Bool"] = func(e *Engine, fr *frame, a []Value) Value {
